@@ -31,7 +31,8 @@ def expected_groups(uid, gid):
 
 def cred_cell(cell):
     """Fork; in the child build the real Config, call the real set_owner_process, report ids."""
-    user, group, initgroups = cell
+    user, group, initgroups = cell[:3]
+    start = cell[3] if len(cell) > 3 else "root"
     r, w = os.pipe()
     pid = os.fork()
     if pid == 0:
@@ -45,6 +46,14 @@ def cred_cell(cell):
             if group is not None:
                 c.set("group", group)
             c.set("initgroups", initgroups)
+            if start == "gid-preset":
+                # the master already runs with the configured group (systemd Group= without User=, `sg`, docker --user 0:gid)
+                # and with supplementary groups of its own
+                os.setgroups([0, 42])
+                os.setresgid(c.gid, c.gid, c.gid)
+            elif start == "egid-preset":
+                os.setgroups([0, 42])
+                os.setegid(c.gid)
             try:
                 util.set_owner_process(c.uid, c.gid, initgroups=c.initgroups)
                 out = repr((c.uid, c.gid, os.getresuid(), os.getresgid(), tuple(sorted(os.getgroups())), None))
@@ -64,7 +73,7 @@ def cred_cell(cell):
     os.waitpid(pid, 0)
     cuid, cgid, ruid, rgid, groups, err = eval(data.decode())
     if err:
-        return ("set-owner-raised", "user=%r group=%r initgroups=%s: %s" % (user, group, initgroups, err))
+        return ("set-owner-raised", "user=%r group=%r initgroups=%s start=%s: %s" % (user, group, initgroups, start, err))
     master_groups = tuple(sorted(os.getgroups()))
     if ruid != (cuid, cuid, cuid):
         return ("uid-not-dropped" + (":user-only" if group is None else ""), "user=%r group=%r initgroups=%s: (r,e,s)uid=%r, configured uid %d" % (user, group, initgroups, ruid, cuid))
@@ -73,7 +82,8 @@ def cred_cell(cell):
     if initgroups and user is not None and group is not None and cgid != 0 and user != 4242:
         want = expected_groups(cuid, cgid)
         if groups != want:
-            return ("supplementary-groups", "user=%r group=%r initgroups: groups=%r expected %r" % (user, group, groups, want))
+            return ("supplementary-groups" + ("" if start == "root" else ":master-has-the-group-already"),
+                    "user=%r group=%r initgroups, master identity %s: groups=%r expected %r" % (user, group, start, groups, want))
     return None
 
 
@@ -244,7 +254,8 @@ def real_cells(thorough):
 def run(ctx):
     if os.geteuid() != 0:
         raise AssertionError("C20 needs to run as root to observe privilege dropping")
-    cred = [(u, g, ig) for u in USERS for g in GROUPS for ig in (False, True)]
+    cred = [(u, g, ig, "root") for u in USERS for g in GROUPS for ig in (False, True)]
+    cred += [(u, g, ig, st) for u in USERS for g in GROUPS if g is not None for ig in (False, True) for st in ("gid-preset", "egid-preset")]
     cres = par.pmap(cred_cell, cred)
     viols = {}
     for cell, v in zip(cred, cres):
@@ -272,7 +283,8 @@ def run(ctx):
     cov = {
         "evaluations": len(cred) + len(cells),
         "distinct_nontrivial": sum(1 for c in cred if c[0] is not None or c[1] is not None) + len(cells),
-        "rule": "cred: every (user spelling, group spelling, initgroups) of %d x %d x 2 on the real kernel; real: every (worker class, identity configuration, history) "
+        "rule": "cred: every (user spelling, group spelling, initgroups, identity the master starts with: root/0, root with the configured gid already, "
+                "root with only the effective gid already) of %d x %d x 2 x 3 on the real kernel; real: every (worker class, identity configuration, history) "
                 "cell; non-trivial = an identity is configured" % (len(USERS), len(GROUPS)),
         "samples": [{"cred": ["www-data", "nogroup", True]}, {"real": ["gevent", "nobody", None, False, "hup-adds-identity"]}],
         "exhaustive": True,
@@ -287,7 +299,7 @@ def run(ctx):
 def replay(case):
     if case["part"] == "cred":
         c = case["cell"]
-        v = cred_cell((c[0], c[1], c[2]))
+        v = cred_cell(tuple(c))
         return violation("cred:" + v[0], v[1], case) if v else None
     c = case["cell"]
     v = real_cell(tuple(c))
